@@ -29,11 +29,22 @@
                               The guard r0 > 0 is needed: r = [-1, 2] is not positive definite, yet P_1 = -1*(1-4) = 3 > 0
                               and the recursion returns (Example levinson_negative_r0_returns; the implementation does
                               the same).  r0 <= 0 is outside the property's quantifier (autocorrelation sequences).
-   NOT PROVED: the CHOLESKY solvers (numpy/scipy library back ends: residual search only). *)
+   PROVED (abstract *-field; Model/Cholesky.v + Proofs/CholeskyTheory.v; the numpy / scipy routines are ORACLES of the model, and what
+   the library documents of them are the four hypotheses solve_spec / np_chol_spec / sp_chol_spec / cho_solve_spec):
+     cholesky_solves         whatever method is accepted, a returned X satisfies A X = B row by row (the 'numpy' back end: A = L L^H,
+                             then forward and backward substitution compose to a solution; 'scipy': A = U^H U and cho_solve)
+     cholesky_method         exactly the three method strings are accepted; every other string is a ValueError whatever the data
+     cholesky_methods_agree  when A x = 0 has only the zero solution, all accepted methods return the same vector
+   (the dispatch and the composition of library calls are REGENERATED from cholesky.py on every run and proved equal to the model:
+    generated theorems gen_cholesky_translated / gen_cholesky_solves / gen_cholesky_default_accepted)
+   NOT PROVED: that numpy.linalg.cholesky / solve and scipy.linalg.cholesky / cho_solve meet their specifications (residual search only). *)
 Require Import Spectrum.Theory.Ops Spectrum.Theory.Sum Spectrum.Theory.Vec Spectrum.Model.Levinson
                Spectrum.Proofs.LevinsonTheory Spectrum.Proofs.HermtoepTheory Spectrum.Proofs.ToeplitzTheory Spectrum.Theory.Order Spectrum.Proofs.YulePD Spectrum.Proofs.LevinsonPD Spectrum.Proofs.LevinsonPDConverse
-               Spectrum.Instances.QcC Spectrum.Instances.QcCOrd.
+               Spectrum.Instances.QcC Spectrum.Instances.QcCOrd
+               Spectrum.Model.Cholesky Spectrum.Proofs.CholeskyTheory Spectrum.Proofs.CholeskyExample Spectrum.Model.LinPred Spectrum.Instances.QcCEq_C11.
 From Coq Require Import QArith Qcanon.
+From Coq Require String.
+Notation string := String.string (only parsing).
 
 Section C10.
 Context {F : Type} {OF : Ops F} {L : Laws OF}.
@@ -146,6 +157,41 @@ Theorem levinson_allow_returns (r : list F) (p : nat) : (p <= length r - 1)%nat 
 Proof. exact (levinson_allow_returns_thm r p). Qed.
 End C10_order.
 
+Section C10_cholesky.
+Context {F : Type} {OF : Ops F} {L : Laws OF}.
+Local Open Scope F_scope.
+Theorem cholesky_solves (O : @oracles F) (n : nat) (A : matrix) (B : vector) (method : string) (x : vector) :
+  solve_spec O -> np_chol_spec O -> sp_chol_spec O -> cho_solve_spec O ->
+  CHOLESKY O n A B method = inr x -> forall i, (i < n)%nat -> sumf n (fun j => A i j * x j) = B i.
+Proof. exact (cholesky_solves_thm O n A B method x). Qed.
+
+Theorem cholesky_method (O : @oracles F) (n : nat) (A : matrix) (B : vector) (method : string) :
+  (method <> m_numpy_solver /\ method <> m_numpy /\ method <> m_scipy) <-> CHOLESKY O n A B method = inl ValueError.   (* "numpy_solver", "numpy", "scipy" *)
+Proof. exact (cholesky_method_thm O n A B method). Qed.
+
+Theorem cholesky_methods_agree (O : @oracles F) (n : nat) (A : matrix) (B : vector) (m1 m2 : string) (x1 x2 : vector) :
+  solve_spec O -> np_chol_spec O -> sp_chol_spec O -> cho_solve_spec O ->
+  (forall d, solves n A d (fun _ => 0) -> forall i, (i < n)%nat -> d i = 0) ->
+  CHOLESKY O n A B m1 = inr x1 -> CHOLESKY O n A B m2 = inr x2 -> forall i, (i < n)%nat -> x1 i = x2 i.
+Proof. exact (cholesky_methods_agree_thm O n A B m1 m2 x1 x2). Qed.
+End C10_cholesky.
+
+(* non-vacuity of the CHOLESKY theorems: an oracle record over the Gaussian rationals that meets all four specifications
+   (1 x 1 systems; factor 2 proposed for the matrix [[4]]) and calls that return the solution of 4 x = 8 by each method *)
+Definition qeq0 (a : QcC) : bool := qcc_eqb a (zero (Ops:=qcc_ops)).
+Lemma qeq0_spec a : qeq0 a = true <-> a = zero (Ops:=qcc_ops).
+Proof. apply qcc_eqb_spec. Qed.
+Definition exO : @oracles QcC := @ex_oracles QcC qcc_ops qeq0 (cz (2,0) (0,0))%Z.
+Example cholesky_specs_satisfiable :
+  solve_spec (OF:=qcc_ops) exO /\ np_chol_spec (OF:=qcc_ops) exO /\ sp_chol_spec (OF:=qcc_ops) exO /\ cho_solve_spec (OF:=qcc_ops) exO.
+Proof. exact (ex_specs (L:=qcc_laws) qeq0 qeq0_spec (cz (2,0) (0,0))%Z). Qed.
+Example cholesky_example :
+  forall m, In m [m_numpy_solver; m_numpy; m_scipy] ->
+  exists x, @CHOLESKY QcC qcc_ops exO 1 (fun _ _ => cz (4,0) (0,0))%Z (fun _ => cz (8,0) (0,0))%Z m = inr x /\ x O = (cz (2,0) (0,0))%Z.
+Proof.
+  intros m [<-|[<-|[<-|[]]]]; vm_compute; eexists; (split; [reflexivity|]); vm_compute; apply qcc_eq; apply Qc_is_canon; reflexivity.
+Qed.
+
 (* non-vacuity: a concrete complex positive-definite sequence meets the hypotheses and the
    recursion returns; an indefinite one raises *)
 Definition ex_r : list QcC := [cz (2,0) (0,0); cz (1,0) (1,-1); cz (1,-2) (-1,-1)]%Z.
@@ -194,3 +240,6 @@ Print Assumptions levinson_pd_iff.
 Print Assumptions levinson_returns_iff_pd.
 Print Assumptions levinson_not_pd_raises.
 Print Assumptions levinson_allow_returns.
+Print Assumptions cholesky_solves.
+Print Assumptions cholesky_method.
+Print Assumptions cholesky_methods_agree.
